@@ -203,7 +203,10 @@ func c12Outcomes(r *Rng) []OutD {
 		mk(join(sent(2), wrap(sent(0)))), mk(ErrD{K: "TypedV", A: 0, B: 1}), mk(ErrD{K: "TypedVP", A: 0, B: 0}),
 		mk(ErrD{K: "TypedP", A: 1, B: 0}), mk(wrap(ErrD{K: "TypedP", A: 1, B: 1})),
 		mk(ErrD{K: "Exceeded", A: 7, Sub: []ErrD{sent(0)}}), mk(ErrD{K: "Exceeded", A: 1}),
-		mk(ErrD{K: "CustomIs", A: 0, B: 0}), mk(sent(3)), mk(ErrD{K: "Open"}), mk(ErrD{K: "CtxDeadline"})}
+		mk(ErrD{K: "CustomIs", A: 0, B: 0}), mk(sent(3)), mk(ErrD{K: "Open"}), mk(ErrD{K: "CtxDeadline"}),
+		// a typed nil pointer (err != nil, of type *PtrErr1), alone and wrapped; an error whose As method claims every type
+		mk(ErrD{K: "TypedP", A: 1, B: typedNilB}), mk(wrap(ErrD{K: "TypedP", A: 0, B: typedNilB})),
+		mk(ErrD{K: "TypedP", A: asShimTy, B: 0}), mk(wrap(ErrD{K: "TypedP", A: asShimTy, B: 0})), mk(join(ErrD{K: "TypedP", A: asShimTy, B: 0}, sent(2)))}
 	var outs []OutD
 	for _, res := range []int64{0, 1, 7} {
 		for _, e := range errs {
